@@ -937,7 +937,11 @@ async def check_window(case, rec):
                 if inner_obj.data_type == DataType.INVALID:
                     break  # a stale inner object: known-finding territory (root cause B), not this sub-check's
                 dm.register_relation(dst_obj, inner_obj)
-                inner_fact = m.cur.get((cur_lk, p)) or m.register_one(cur_lk, p, inner_obj.data_type.name)
+                # transfer_data takes whatever location of the inner site hangs on that node first (it may carry
+                # another path: a related copy); only if there is none does it state the inner path itself
+                inner_fact = it.fact_of(inner_obj) if found else m.register_one(cur_lk, p, inner_obj.data_type.name)
+                if inner_fact is None:
+                    break
                 m.relate(m.cur[(dst_lk, dst_path)], inner_fact)
         dst_obj.available.set()
         await settle()
